@@ -50,6 +50,40 @@ def _lower(s):
     return "".join(chr(ord(c) + 32) if "A" <= c <= "Z" else c for c in s)
 
 
+def own_stream(fl):
+    """walker-format tokens derived from the directly traversed tree (independent of html5lib's walkers)"""
+    from html5lib.constants import voidElements
+    out = []
+    stack = []      # (depth, namespace, name)
+    for r in fl[1:]:
+        while stack and stack[-1][0] >= r[0]:
+            d, ns, name = stack.pop()
+            out.append({"type": "EndTag", "name": name, "namespace": ns})
+        k = r[1]
+        if k == "elem":
+            data = {}
+            for a in r[4]:
+                data[(a[0], a[1])] = a[2]
+            if r[2] in (None, HTML_NS) and r[3] in voidElements:
+                out.append({"type": "EmptyTag", "name": r[3], "namespace": r[2], "data": data})
+                stack.append((r[0], None, None))      # children of a void element are not representable; C11 owns that case
+                stack.pop()
+                void_depth = r[0]
+            else:
+                out.append({"type": "StartTag", "name": r[3], "namespace": r[2], "data": data})
+                stack.append((r[0], r[2], r[3]))
+        elif k == "text":
+            out.append({"type": "Characters", "data": r[2]})
+        elif k == "comment":
+            out.append({"type": "Comment", "data": r[2]})
+        elif k == "doctype":
+            out.append({"type": "Doctype", "name": r[2], "publicId": r[3], "systemId": r[4]})
+    while stack:
+        d, ns, name = stack.pop()
+        out.append({"type": "EndTag", "name": name, "namespace": ns})
+    return out
+
+
 def expected_tokens(stream, alphabetical):
     """given stream -> neutral lexical tokens (text concatenated)"""
     out = []
@@ -214,12 +248,19 @@ def check_case(case):
     if any(t["type"] == "SerializeError" for t in stream):
         return Verdict("excluded", finding="walker error token (C11 known finding)")
     alphabetical = bool(opts.get("alphabetical_attributes"))
+    # what was *given* is the tree: the expected tokens come from our own traversal, html5lib's walker only feeds the serializer
+    from vf import obs
+    from vf.props.c11 import _void_with_children
+    fl = obs.flat(tree)
+    if _void_with_children(fl):
+        return Verdict("excluded", finding="void-listed element with children (C11 known finding)")
+    given = own_stream(fl)
     ser = HTMLSerializer(omit_optional_tags=False, inject_meta_charset=False, **opts)
     try:
         out = ser.render(iter([dict(t, data=dict(t["data"])) if isinstance(t.get("data"), dict) else dict(t) for t in stream]))
     except Exception as e:
         return Verdict("fail", "serializer raised %s: %s on the stream of %s" % (type(e).__name__, short(str(e), 100), short(text, 200)), "exception:" + type(e).__name__, nontrivial=True)
-    exp = expected_tokens(stream, alphabetical)
+    exp = expected_tokens(given, alphabetical)
     special = set("<>&\"'`= \t\n")
     nontrivial = any((e[0] == "chars" and set(e[1]) & special) or (e[0] == "start" and (e[3] not in (None, HTML_NS) or e[1] in RCDATA + RAWTEXT + ("script",) or any(set(v) & special for k, v in e[2])))
                      or (e[0] == "doctype" and (e[2] or e[3])) for e in exp)
@@ -239,7 +280,7 @@ def check_case(case):
     res = read_back(out, exp, scripting, alphabetical)
     if res is None:
         return Verdict("pass", nontrivial=nontrivial, sig=sig, classes=classes)
-    trig = [f for f in known_triggers(stream, opts, scripting) if active(f)]
+    trig = [f for f in known_triggers(given, opts, scripting) if active(f)]
     if trig:
         return Verdict("known", finding="+".join(trig), nontrivial=nontrivial, sig=sig, classes=classes)
     bucket, msg = res
